@@ -112,6 +112,18 @@ impl Binder {
                 .collect();
         }
 
+        for col in &columns {
+            for opt in &col.options {
+                if !matches!(
+                    opt.option,
+                    ColumnOption::Null | ColumnOption::NotNull | ColumnOption::Unique { .. }
+                ) {
+                    return Err(ErrorKind::Todo(format!("column option {}", opt.option))
+                        .with_spanned(col));
+                }
+            }
+        }
+
         let mut columns: Vec<ColumnCatalog> = columns
             .iter()
             .enumerate()
